@@ -107,6 +107,15 @@ Definition sx_reload (q : req) (v : variant) (st : storage) (r : outcome) : sx :
 Definition cut (evs : list event) (k : option nat) : list event :=
   match k with Some n => firstn n evs | None => evs end.
 
+(* the decidable hypotheses of C05_resume_eq_uninterrupted (order conditions; distinct files have distinct names) hold
+   for every request that satisfies C01's request_ok; the implementation side of this component is the constant True *)
+Definition hyps_ok (q : req) : bool :=
+  negb (MapDenote.request_ok (q_funcs q) (q_inputs q))
+  || match mk_ctx q with
+     | Ok cx => pipeline_order_ok (q_funcs q) && paths_ok cx (map fst (q_inputs q))
+     | Err _ => true
+     end.
+
 Definition run (c : case) : sx :=
   match c with
   | CEvents q st old =>
@@ -114,7 +123,7 @@ Definition run (c : case) : sx :=
       let r1 := run_on sym_body v st q true empty_fs in
       let r2 := run_on sym_body v st q false (o_fs r1) in
       SL [SL (map sx_event (o_events r1)); sx_outcome q (o_result r1);
-          SL (map sx_event (o_events r2)); sx_outcome q (o_result r2)]
+          SL (map sx_event (o_events r2)); sx_outcome q (o_result r2); SB (hyps_ok q)]
   | CCrash q st old fail k1 k2 =>
       let v := variant_of old in
       let line := match fail with Some (fn, n) => nth_call_line q fn n | None => None end in
@@ -184,7 +193,7 @@ Definition spec_ok (c : case) (obs : sx) : bool :=
       if old then true else
       match mk_oracle q, obs with
       | None, _ => true
-      | Some o, SL [_; out1; SL evs2; out2] =>
+      | Some o, SL [_; out1; SL evs2; out2; _] =>
           (* an uninterrupted run yields the denotation; re-running it with cleanup=False yields the same and calls nothing *)
           sx_eqb out1 (expected_outcome q o) && sx_eqb out2 (expected_outcome q o)
           && negb (existsb (fun e => match e with SL [SS k; _] => str_eqb k (s "call") | _ => false end) evs2)
